@@ -688,3 +688,62 @@ def run_active_mt(ctx, total, interval, n_tasks=2):
     with overlay(mod, tqdm=lambda *a, **k: W.Bar()):
         res = mod.train_active_mt(ts, train_st_contract(w), buf, 1.0, task_selector=sel, total_timesteps=total, scheduling_interval=interval, learning_starts=0, seed=0, logger=None, progress_bar=False)
     return w, ts, buf, res
+
+
+def run_a2c_train(ctx, which, K, start=0):
+    """train_a2c with the real collect_trajectories: rows stay faithful ACROSS rollouts (last observation threaded through)."""
+    from rl_blox.algorithm import a2c as mod
+    w = W.World()
+    env = VecEnvStub(w)
+    env.single_action_space = W.gym.spaces.Box(-1, 1, (1,))
+
+    def reset(seed=None, options=None):
+        return env.cur, {}
+    env.reset = reset
+    buffers = []
+
+    class RB:
+        def __init__(self, buffer_size, keys, dtypes):
+            self.keys, self.rows = keys, []
+            if "obs" in keys:
+                buffers.append(self)
+
+        def add_sample(self, **kw):
+            self.rows.append(kw)
+
+        def __len__(self):
+            return len(self.rows)
+
+    class Pol:
+        n = 0
+
+        def sample(self, obs, key):
+            Pol.n += 1
+            a = np.asarray([[3000.0 + Pol.n], [4000.0 + Pol.n]], dtype=np.float32)
+            w.emit("policy_sample", env.n_steps, obs=obs, key=key, action=a)
+            return a
+    steps_per_update = 2
+    n_rollouts = K
+    prep = []
+
+    def prepare(rb, vf, last_obs, space, gamma, lmbda):
+        prep.append((rb, last_obs, env.n_steps))
+        return (0, 0, 0, 0)
+    with overlay(mod, ReplayBuffer=RB, jax=W.JaxShim(False), jnp=type("J", (), {"array": staticmethod(lambda x: x)}), prepare_a2c_batch=prepare,
+                 train_policy_a2c=lambda *a, **k: 0.0, train_value_function=lambda *a, **k: 0.0, tqdm=lambda *a, **k: W.Bar()):
+        mod.train_a2c(env, Pol(), W.StubModule("popt"), W.StubModule("vf"), W.StubModule("vopt"), total_timesteps=n_rollouts * steps_per_update * env.num_envs,
+                      steps_per_update=steps_per_update, seed=0, logger=None, log_frequency=None, progress_bar=False)
+    rows = [r for b in buffers for r in b.rows]
+    ctx.check(len(rows) == env.n_steps and len(buffers) == n_rollouts, "one-rollout-row-per-executed-step")
+    for a, st in zip(rows, env.steps):
+        ctx.check(bool(np.array_equal(np.asarray(a["obs"]), st["obs"])), "stored-observation-is-the-one-the-environment-last-returned(reset-obs-after-episode-end)")
+        ctx.check(bool(np.array_equal(np.asarray(a["actions"]), np.asarray(st["action"]))), "stored-action-is-the-action-passed-to-the-environment")
+    for (_, at, p) in w.of("policy_sample"):
+        ctx.check(bool(np.array_equal(np.asarray(p["obs"]), env.steps[at]["obs"])), "acting-policy-is-conditioned-on-the-current-observation")
+    for (rb, last_obs, at) in prep:
+        ctx.check(bool(np.array_equal(np.asarray(last_obs), env.steps[at - 1]["next_obs"])), "bootstrap-observation-is-the-environment's-current-observation")
+    return Trace("a2c_train", w, env, None, {}, None, None, 0, K)
+
+
+RUNNERS["a2c_train"] = run_a2c_train
+EXTRA_C01.append(("a2c_train", "a2c.train_a2c"))
